@@ -15,6 +15,8 @@ Tag(o, nblocks, ngcs, nooms, isnull) ==
     ELSE IF ~o.safepoint /\ nblocks > 0 THEN "C10:blocked-although-not-at-safepoint"
     ELSE IF o.overcommit /\ o.small /\ (nblocks > 0 \/ isnull) THEN "C10:overcommit-blocked-or-failed"
     ELSE IF o.overHeap /\ (~isnull \/ nblocks > 0) THEN "C10:over-heap-request-not-failed-immediately"
+    ELSE IF isnull /\ ~o.overHeap /\ o.safepoint /\ ~o.overcommit /\ nblocks = 0
+         THEN "C10:given-up-without-any-collection"
     ELSE "C10:contract"
 
 TInit == l = 1 /\ cur = [id |-> 0] /\ nb = 0 /\ ng = 0 /\ no = 0 /\ calls = 0
